@@ -85,6 +85,8 @@ def gen_model(rnd, max_classes=5, hooks=True):
                 params.append(p)
             params.sort(key=lambda p: not p['required'])
             s = {'name': name, 'kind': 'obj', 'bases': bases, 'params': params, 'extra': rnd.random() < 0.15}
+            if s['extra'] and rnd.random() < 0.5:
+                s['extra_at'] = rnd.randrange(0, len(params) + 1)      # `_yatiml_extra` not last in the signature
             if rnd.random() < 0.12:
                 s['bases'] = s['bases'] + ['ABC']
             if rnd.random() < 0.14:
@@ -502,10 +504,49 @@ def directed_cases(rnd, specs):
                 yield ('class', s['name']), d3, 'directed-wrong-type'
 
 
+def permissive_cases(rnd):
+    """Hand-designed models whose recognisers / savorize functions let wrongly typed scalars through to the attribute
+    type check (a permissive _yatiml_recognize, a savorize writing a node of the wrong kind), with every scalar kind at
+    every scalar-typed parameter, at top level and below a list / dict / optional attribute."""
+    scal = [('int', S('7', 'int')), ('bool', S('true', 'bool')), ('float', S('1.5', 'float')), ('str', S('x')),
+            ('null', S('~', 'null'))]
+    ptypes = ['int', 'str', 'float', 'bool']
+    for recog in ([('mapping',)], []):
+        params = [{'name': 'p_' + t, 'type': t, 'required': i < 2} for i, t in enumerate(ptypes)]
+        k0 = {'name': 'K0', 'kind': 'obj', 'bases': [], 'params': params, 'extra': False, 'recognize': recog,
+              'registered': True}
+        k1 = {'name': 'K1', 'kind': 'obj', 'bases': [], 'extra': False, 'registered': True,
+              'params': [{'name': 'count', 'type': 'int', 'required': True}],
+              'savorize': [('if', ('has', 'unlimited'), [('remove', 'unlimited'), ('set', 'count', ('sv', rnd.choice([True, 1.5, 'many'])))], [])]}
+        k2 = {'name': 'K2', 'kind': 'obj', 'bases': [], 'extra': False, 'registered': True,
+              'params': [{'name': 'jobs', 'type': ('list', 0, ('class', 'K0')), 'required': False},
+                         {'name': 'one', 'type': ('optional', ('class', 'K1')), 'required': False},
+                         {'name': 'tbl', 'type': ('dict', 3, 'str', ('class', 'K0')), 'required': False}]}
+        specs = [k0, k1, k2]
+        good = {'int': S('7', 'int'), 'str': S('x'), 'float': S('1.5', 'float'), 'bool': S('true', 'bool')}
+        for t in ptypes:
+            for kind, w in scal:
+                doc = M([(S('p_' + u), encode.copy_tree(w if u == t else good[u])) for u in ptypes])
+                yield specs, ('class', 'K0'), doc, 'permissive-%s-for-%s' % (kind, t)
+                if rnd.random() < 0.5:
+                    yield specs, ('class', 'K2'), M([(S('jobs'), Q([encode.copy_tree(doc)]))]), 'permissive-nested-list'
+                else:
+                    yield specs, ('class', 'K2'), M([(S('tbl'), M([(S('k'), encode.copy_tree(doc))]))]), 'permissive-nested-dict'
+        yield specs, ('class', 'K1'), M([(S('count'), S('3', 'int')), (S('unlimited'), S('yes'))]), 'savorize-writes-wrong-kind'
+        yield specs, ('class', 'K2'), M([(S('one'), M([(S('count'), S('3', 'int')), (S('unlimited'), S('yes'))]))]), 'savorize-writes-wrong-kind-nested'
+        yield specs, ('class', 'K1'), M([(S('count'), S('3', 'int'))]), 'valid'
+
+
 # ---------------------------------------------------------------- standard case stream
 
 def gen_cases(rnd, n_models, docs_per_model, hooks=True, share_p=0.0):
     """Yields (specs, tyspec, text, desc)."""
+    if hooks:
+        for specs, tyspec, node, desc in permissive_cases(rnd):
+            try:
+                yield specs, tyspec, serialize(node), desc
+            except Exception:       # noqa
+                continue
     for _ in range(n_models):
         specs = gen_model(rnd, hooks=hooks)
         names = [s['name'] for s in specs if s.get('registered', True)]
